@@ -95,6 +95,8 @@ func (f *mfactory) Connect(o *transport.Options) (transport.Transport, error) {
 	return t, nil
 }
 func (f *mfactory) Listen(o *transport.Options) (transport.Acceptor, error) {
+	// binding takes time: other goroutines may run while the accept loop is in here
+	f.s.Yield("f.listen", nil)
 	l, _ := strconv.Atoi(o.Address.Port())
 	a := &macceptor{f: f, l: l}
 	f.acceptors[l] = a
@@ -402,7 +404,8 @@ func run(sc scenario, choose func(step int, en []*sched.Thread, last *sched.Thre
 				if ti.late {
 					late = append(late, ti.ret)
 				}
-			case t.Point == "a.accept":
+			case t.Point == "a.accept" || t.Point == "f.listen":
+				// inside transportFactory.Listen the decision to listen has been taken (the model's step)
 				d = fmt.Sprintf("BSync %d SyAccept", ti.l)
 			case t.Point == "l.serve":
 				d = fmt.Sprintf("BSync %d SyServe", ti.l)
